@@ -22,6 +22,11 @@ package mon
 // Signatures are C34.board-name-<class>:<clause>[:created|modified|removed] where <class> is
 // the trigger class of the tree's most hostile board name:
 // dotdot-component > slash > keyword-index > other.
+//
+// A quarter of the trees ("edge") plant the whole-name edge cases of a name→path-component
+// mapping: boards named exactly `.` / `..` / `...` / dots-and-spaces only / `%2E%2E` / `%2F`,
+// and siblings one of which is named like the escape of the other (`a/b` next to `a%2Fb`),
+// each as leaf board and as folder board (with sub-boards), at the first and deeper levels.
 
 import (
 	"bytes"
@@ -153,8 +158,11 @@ var c34NameClasses = map[string][]string{
 	"slash":     {"a/b", "/abs", "a/", "a//b", "./a", "a/b/c", "/"},
 	"dotdot":    {"..", "../x", "a/../b", "../../y", "x/..", "../out/x", "../sentinel"},
 	"keyword":   {"index", "layers", "scenarios", "steps", "Index", "index.svg", "x", "x.svg"},
-	"unicode":   {"ü中", "日本語", "😀", "e\u0301", "\u202eabc"},
-	"shell":     {"a:b", "a*b", "a?b", "a|b", "<x>", "a&b", "%2e%2e", "~", "-rf", "$HOME", "a;b", "`id`", "a'b", `a"b`, "#h", "{b}", strings.Repeat("n", 120)},
+	// whole-name edge cases of a name→path-component mapping: names that ARE a dot path, names
+	// made of dots/spaces only, and names that look like the escapes of other names
+	"wholedot": {".", "..", "...", ". ", " .", "  ", " ", ". .", ".. ", " ..", "%2E", "%2E%2E", "%2e%2e", "%2F", "%252F", "%5C", "%25", "%"},
+	"unicode":  {"ü中", "日本語", "😀", "e\u0301", "\u202eabc"},
+	"shell":    {"a:b", "a*b", "a?b", "a|b", "<x>", "a&b", "%2e%2e", "~", "-rf", "$HOME", "a;b", "`id`", "a'b", `a"b`, "#h", "{b}", strings.Repeat("n", 120)},
 }
 
 // c34TriggerClass is the class used in violation signatures.
@@ -186,6 +194,7 @@ func c34TriggerClass(t *c34Tree) string {
 
 type c34GenOpts struct {
 	Hostile  int      // number of hostile names to plant
+	Edge     int      // >0: plant whole-name / escape-collision edge cases; the value selects the first plant
 	Links    bool     // generate link-bearing shapes (C35)
 	Imports  bool     // move some board bodies into imported files (C35)
 	BenignC  []string // classes for the remaining names
@@ -289,6 +298,9 @@ func c34GenTree(q *gen.R, o c34GenOpts) *c34Tree {
 		ddBudget -= dd
 		b.Name, b.Class = name, cls
 	}
+	if o.Edge > 0 {
+		c34PlantEdge(q, t, o.Edge-1, mk, used, &ddBudget)
+	}
 	// folder-only candidates: a layer without own shape but with children
 	if !o.Links && q.P(0.2) {
 		for _, b := range all {
@@ -304,6 +316,124 @@ func c34GenTree(q *gen.R, o c34GenOpts) *c34Tree {
 	t.Text = c34Render(t, t.Root, 0, true)
 	t.Class = c34TriggerClass(t)
 	return t
+}
+
+// c34PlantEdge renames boards to the edge cases of a "board name → one path component"
+// mapping. Plant 0 is chosen by sel (cycling through {"..", "."} × {leaf, folder board} ×
+// {first level, deeper}); 1–3 further plants are random: a whole-name case on a leaf or on a
+// folder board, or a pair of siblings one of which is named like the escape of the other.
+func c34PlantEdge(q *gen.R, t *c34Tree, sel int, mk func(parent *c34Board, kind string) *c34Board, used map[*c34Board]map[string]bool, ddBudget *int) {
+	type ref struct {
+		b, parent *c34Board
+		depth     int
+	}
+	collect := func() []ref {
+		var out []ref
+		var rec func(p *c34Board, d int)
+		rec = func(p *c34Board, d int) {
+			for _, c := range p.kids() {
+				out = append(out, ref{c, p, d + 1})
+				rec(c, d+1)
+			}
+		}
+		rec(t.Root, 0)
+		return out
+	}
+	addKid := func(b *c34Board) *c34Board {
+		c := mk(b, "layers")
+		b.Layers = append(b.Layers, c)
+		return c
+	}
+	rename := func(r ref, name string) bool {
+		dd := 0
+		if name == ".." {
+			dd = 1
+		}
+		if dd > *ddBudget || used[r.parent][name] {
+			return false
+		}
+		if used[r.parent] == nil {
+			used[r.parent] = map[string]bool{}
+		}
+		delete(used[r.parent], r.b.Name)
+		used[r.parent][name] = true
+		*ddBudget -= dd
+		r.b.Name, r.b.Class = name, "wholedot"
+		if r.b.Marker == "" {
+			r.b.Marker = "MKE" + fmt.Sprint(len(name)) + "X"
+		}
+		return true
+	}
+	pick := func(deeper, folder bool) ref {
+		refs := collect()
+		var cands []ref
+		for _, r := range refs {
+			if (r.depth >= 2) == deeper {
+				cands = append(cands, r)
+			}
+		}
+		if len(cands) == 0 && deeper {
+			// make a deeper level
+			for _, r := range refs {
+				if r.depth == 1 {
+					addKid(r.b)
+					break
+				}
+			}
+			for _, r := range collect() {
+				if r.depth >= 2 {
+					cands = append(cands, r)
+				}
+			}
+		}
+		if len(cands) == 0 {
+			cands = refs
+		}
+		r := gen.Pick(q, cands)
+		if folder && len(r.b.kids()) == 0 {
+			addKid(r.b)
+		}
+		if !folder && len(r.b.kids()) > 0 {
+			// prefer a leaf among the candidates
+			for _, c := range cands {
+				if len(c.b.kids()) == 0 {
+					r = c
+					break
+				}
+			}
+		}
+		return r
+	}
+	// plant 0: deterministic cycle
+	name := []string{"..", "."}[sel%2]
+	folder := sel/2%2 == 1
+	deeper := sel/4%2 == 1
+	rename(pick(deeper, folder), name)
+	for k := q.Range(1, 3); k > 0; k-- {
+		switch q.Intn(3) {
+		case 0, 1:
+			rename(pick(q.P(0.5), q.P(0.5)), gen.Pick(q, c34NameClasses["wholedot"]))
+		default:
+			// siblings: a name and the escape of that name
+			pairs := [][2]string{{"a/b", "a%2Fb"}, {"..", "%2E%2E"}, {".", "%2E"}, {"a%2Fb", "a%252Fb"}, {"a/", "a"}, {"%", "%25"}, {`a\b`, "a%5Cb"}, {"a/b", "a"}}
+			pr := gen.Pick(q, pairs)
+			r := pick(q.P(0.4), q.P(0.4))
+			// a sibling under the same parent
+			var sib *c34Board
+			for _, c := range r.parent.kids() {
+				if c != r.b {
+					sib = c
+				}
+			}
+			if sib == nil {
+				sib = mk(r.parent, "layers")
+				r.parent.Layers = append(r.parent.Layers, sib)
+			}
+			if rename(r, pr[0]) {
+				rename(ref{sib, r.parent, r.depth}, pr[1])
+			}
+		}
+	}
 }
 
 // c34Render renders a board body. Imported bodies are written to t.Files.
@@ -497,7 +627,7 @@ func c34SvgFiles(sb *c34Sandbox, before, after c34Snap) []string {
 			out = append(out, p)
 		}
 		if p == single && before[p] != v {
-			out = append(out, p) // the single-board output file, rewritten by this run
+			out = append(out, p) // out/x.svg rewritten by this run (the output of a single board)
 		}
 	}
 	sort.Strings(out)
@@ -548,6 +678,10 @@ func c34Cases(seed int64, tier string, forLinks bool) []run.Case {
 			if i%2 == 1 {
 				o.Hostile = q.Range(1, 3)
 				src = "hostile"
+			}
+			if i%4 == 2 {
+				o.Edge = i/4%8 + 1
+				src = "edge"
 			}
 		}
 		t := c34GenTree(q, o)
@@ -652,8 +786,13 @@ func c34Exec(c run.Case, id, d2bin string) (res run.Result) {
 	// (1) nothing outside the output location changed
 	outDir := filepath.Join(sb.OutRel, "x")
 	single := filepath.Join(sb.OutRel, "x.svg")
+	rootHasBoards := len(t.Root.kids()) > 0
 	allowed := func(p string) bool {
-		return p == single || p == outDir || strings.HasPrefix(p, outDir+"/")
+		if p == single {
+			// a root with sub-boards is a folder out/x/: out/x.svg is not its output
+			return !rootHasBoards
+		}
+		return p == outDir || strings.HasPrefix(p, outDir+"/")
 	}
 	var outside []string
 	for p, v := range before {
